@@ -487,9 +487,7 @@ func (r *BlockchainReactor) Receive(chID byte, src p2p.Peer, msgBytes []byte) {
 
 	case *bcproto.StatusResponse:
 		r.mtx.RLock()
-		if r.events != nil {
-			r.events <- bcStatusResponse{peerID: src.ID(), base: msg.Base, height: msg.Height}
-		}
+		r.offer(bcStatusResponse{peerID: src.ID(), base: msg.Base, height: msg.Height})
 		r.mtx.RUnlock()
 
 	case *bcproto.BlockResponse:
@@ -500,22 +498,34 @@ func (r *BlockchainReactor) Receive(chID byte, src p2p.Peer, msgBytes []byte) {
 			r.mtx.RUnlock()
 			return
 		}
-		if r.events != nil {
-			r.events <- bcBlockResponse{
-				peerID: src.ID(),
-				block:  bi,
-				size:   uint64(len(msgBytes)),
-				time:   time.Now(),
-			}
-		}
+		r.offer(bcBlockResponse{
+			peerID: src.ID(),
+			block:  bi,
+			size:   uint64(len(msgBytes)),
+			time:   time.Now(),
+		})
 		r.mtx.RUnlock()
 
 	case *bcproto.NoBlockResponse:
 		r.mtx.RLock()
-		if r.events != nil {
-			r.events <- bcNoBlockResponse{peerID: src.ID(), height: msg.Height, time: time.Now()}
-		}
+		r.offer(bcNoBlockResponse{peerID: src.ID(), height: msg.Height, time: time.Now()})
 		r.mtx.RUnlock()
+	}
+}
+
+// offer hands a peer message to the sync routine without blocking. It is called with
+// r.mtx read-locked: a blocking send here would hold the read lock while demux, the only
+// consumer, needs the write lock (setMaxPeerHeight, setSyncHeight, endSync), so two peers
+// filling the queue could deadlock block sync for ever. A response dropped under overload
+// is asked for again by the scheduler's own timeouts.
+func (r *BlockchainReactor) offer(ev Event) {
+	if r.events == nil {
+		return
+	}
+	select {
+	case r.events <- ev:
+	default:
+		r.logger.Debug("block sync event queue is full, dropping peer message", "event", ev)
 	}
 }
 
